@@ -885,3 +885,53 @@ def term_cases(ctx, conds: tuple, leaf, depth: int = 0):
                     out.extend(term_cases(ctx, conds + c2, component(l2, leaf[2]), depth + 1))
                 return out
     return [(conds, leaf)]
+
+
+def subst_params(t, mapping: dict):
+    """``t`` with parameter terms replaced according to ``mapping`` (plain structural replacement)."""
+    if not mapping or not isinstance(t, tuple):
+        return t
+    if t and t[0] == "param" and t in mapping:
+        return mapping[t]
+    return tuple(subst_params(x, mapping) for x in t)
+
+
+def framed_closure(ctx, f, t, depth: int = 3):
+    """Subterms of ``t`` (a value in ``f``), following loop links, and looking into the returned
+    values of package helpers that could not be inlined as values (they contain loops): the
+    subterms found there are expressed in the caller's frame - the helper's parameters are replaced
+    by the arguments of the call - so that `f(x)` and its body written out in place give the same
+    terms whether or not the statements were given a name."""
+    X = ctx.X
+    stack = [(t, {}, f, depth)]
+    done = set()
+    while stack:
+        cur, mp, fn, d = stack.pop()
+        for s_ in X.closure(cur):
+            s2 = subst_params(s_, mp)
+            yield s2
+            if s_[0] != "call" or d <= 0 or any(a[0] == "star" for a in s_[2]) or any(n == "**" for n, _ in s_[3]):
+                continue
+            g, bound_self = X._inline_target(s_[1], fn)
+            if g is None or g is fn or isinstance(g.node, ast.Lambda):
+                continue
+            pos = list(g.positional)
+            mapping = {}
+            if bound_self is not None and not g.is_static:
+                if not pos:
+                    continue
+                mapping[("param", g.qualname, pos[0])] = subst_params(bound_self, mp)
+                pos = pos[1:]
+            elif g.cls is not None and not g.is_static:
+                continue
+            if len(s_[2]) > len(pos):
+                continue
+            for p, a in zip(pos, s_[2]):
+                mapping[("param", g.qualname, p)] = subst_params(a, mp)
+            for n, v in s_[3]:
+                mapping[("param", g.qualname, n)] = subst_params(v, mp)
+            key = (g.qualname, tuple(sorted(mapping.items(), key=repr)))
+            if key in done:
+                continue
+            done.add(key)
+            stack.append((X.force_inline(X.return_term(g), g), mapping, g, d - 1))
